@@ -7,6 +7,7 @@ ModeOuts == {"ok", "fail", "eagain", "dupfail", "isconn"}
 ModeOutsThorough == {"ok", "fail", "unbound", "nolistener", "isconn", "eagain", "dupfail", "bad"}
 NoSlots == {}
 AllSlots == {"lis", "cli", "acc", "cp"}
+ModeSlotsQuick == {"lis", "acc", "cp"}
 ObsEmit(op, args, ret, post) ==
     PrintT(ToJson([pre |-> Pre, op |-> op, args |-> args, ret |-> ret, post |-> post]))
 ObsNone(op, args, ret, post) == TRUE
